@@ -34,15 +34,20 @@ PID = "C04"
 TITLE = "Context non-interference between Split branches and across accumulators"
 LEAN_MODULES = ["LenaModel.Props.C04"]
 LEAN_SOURCES = ["LenaModel/Model/C04.lean", "LenaModel/Lemmas/C04.lean", "LenaModel/Lemmas/C04Alone.lean",
-                "LenaModel/Lemmas/C04Local.lean", "LenaModel/Props/C04.lean"]
+                "LenaModel/Lemmas/C04Local.lean", "LenaModel/Lemmas/C04Fill.lean", "LenaModel/Props/C04.lean"]
 DRIVER = "drivers/C04.lean"
 THEOREMS = [
     "Lena.C04.split_tokens_disjoint",
     "Lena.C04.fill_tokens_disjoint",
     "Lena.C04.zip_tokens_disjoint",
     "Lena.C04.branch_alone_equiv",
+    "Lena.C04.split_fill_alone_equiv",
+    "Lena.C04.zip_fill_alone_equiv",
+    "Lena.C04.harness_branches_local",
+    "Lena.C04.harness_branch_alone_equiv",
     "Lena.C04.accOps_freshYield",
     "Lena.C04.acc_yield_fresh",
+    "Lena.C04.split_compute_fresh",
     "Lena.C04.store_yields_filled",
 ]
 TRUSTED = [
@@ -55,7 +60,8 @@ TRUSTED = [
 ]
 ASSUMPTIONS = [
     "locality of mutation: Python code can only read and mutate objects reachable from references it holds "
-    "(hypothesis `Local` of the non-interference theorems; proved for the model elements, trusted for user code)",
+    "(hypothesis `Local` of branch_alone_equiv / split_fill_alone_equiv / zip_fill_alone_equiv; proved for every "
+    "branch of the executable model — harness_branches_local —, an assumption for arbitrary user elements)",
     "objects nested inside a context or data list belong to that object only (checked on every real run: no nested "
     "mutable object is reachable from two different root objects)",
     "finite flows; the consumer of Split.run does not mutate a yielded value before the run has finished",
@@ -1006,8 +1012,8 @@ def gen_cases(ctx):
         for word in enum_acc_histories(maxlen if acc in ACC_KINDS else maxlen - 1):
             heap, hist = hist_of_word(acc["a"], word)
             cases.append({"op": "acc", "acc": acc, "heap": heap, "hist": hist, "may_raise": False})
-    n_split = 30000 if thorough else 1500
-    n_acc = 15000 if thorough else 700
+    n_split = 120000 if thorough else 3000
+    n_acc = 50000 if thorough else 1500
     for _ in range(n_split):
         cases.append(gen_split_case(rng))
     for _ in range(n_acc):
@@ -1095,10 +1101,12 @@ def shrink(case):
 
 
 # ---- MANIFEST texts ------------------------------------------------------------------------
-LEVEL_TEXT = ("Lean 4 theorems about a token (object identity) model of Split.run/_fill, Zip._fill and the accumulators, "
-              "for all branch lists, flows, bufsizes and histories; the model is tied to /repo by a correspondence check "
-              "on the id() graph of real runs, plus a direct oracle (branch alone vs inside Split; freshness and "
-              "mutation-robustness of yielded contexts).")
+LEVEL_TEXT = ("Lean 4 theorems about a shared-heap (object identity) model of Split.run/_fill/_compute, Zip._fill and the "
+              "accumulators, for all branch lists, flows, bufsizes and histories: disjointness of the objects handed to "
+              "the branches, equality of every branch's event trace with its trace when run alone (under locality of "
+              "mutation, proved for the model's elements), freshness of every yielded context; the model is tied to /repo "
+              "by a correspondence check on the id() graph of real runs, plus a direct oracle (branch alone vs inside "
+              "Split; freshness and mutation-robustness of yielded contexts).")
 LEVEL_NOTE = ("Trusted: Lean kernel (+ propext, Classical.choice, Quot.sound), the hand transcription validated by the "
               "correspondence runs, locality of mutation for user code, the JSON protocol.")
 TECHNIQUE = "Lean 4 proof over hand-written token/heap model + correspondence check on id() graphs"
